@@ -263,9 +263,11 @@ def decode_number(data_raw: int, bit_offset: int, bit_length: int, signed: bool,
     # adjust resolution
     number_int *= resolution
 
-    if number_int < min_value:
+    # the product is a float: allow half a step so that the range ends themselves are accepted
+    tolerance = abs(resolution) / 2
+    if number_int < min_value - tolerance:
         raise ValueError("Value below minimum allowed")
-    if number_int > max_value:
+    if number_int > max_value + tolerance:
         raise ValueError("Value above maximum allowed")
 
     return number_int
